@@ -730,12 +730,6 @@ def tw_eval(name, cls, t, leaves, diag):
             M = base.trexp(x.S) @ base.trexp(y.S) if name == 'Twist3' else base.trexp2(x.S) @ base.trexp2(y.S)
         fin = bool(np.all(np.isfinite(M)))
         diag['angles'].append(rot_angle(M[:-1, :-1]) if fin else float('nan'))
-        if name == 'Twist3' and fin:
-            R = M[:3, :3]
-            if not base.iseye(M) and not base.iseye(R) and np.array_equal(R, R.T) and abs(np.trace(R) + 1) > 0.5:
-                # round-off left R exactly SYMMETRIC but not within iseye's 10 eps of I: base.trlog's general branch
-                # (after /repo 84bd1d7) computes st = |vex((R - R')/2)| = 0 and divides skw by it: 0/0 = NaN
-                diag['symmetric'] = float(np.linalg.norm(R - np.eye(3)))
         return x * y
     if k == 'inv':
         return tw_eval(name, cls, t[1], leaves, diag).inv()
@@ -758,10 +752,9 @@ def tw_ref(t, mats, inv, info):
 
 
 def twist_cause(name, diag):
-    """root-cause class of a twist-law failure, from the logarithm arguments the implementation actually formed.
-    Since /repo 84bd1d7 (trlog) and c4462a7 (closed-form trlog2) the laws are required to 1e-7 over the WHOLE angle
-    range; the one remaining cause is the symmetric-round-off case described in tw_eval"""
-    return 'trlog-symmetric-roundoff' if diag.get('symmetric') is not None else 'generic'
+    """root-cause class of a twist-law failure.  Since /repo 84bd1d7 + 5f912b1 (trlog) and c4462a7 (closed-form trlog2)
+    no root cause is left: the laws are required to 1e-7 over the WHOLE angle range and every failure is keyed per law"""
+    return 'generic'
 
 
 def oracle_twists(ctx):
@@ -779,6 +772,12 @@ def oracle_twists(ctx):
             if i < len(TWIST_SPECIALS[name]):
                 raw = [np.array(S, float) for S in TWIST_SPECIALS[name][i]]
             for law, lt, rt in tlaws:
+                twist_case(ctx, name, cls, expr, alg, law, lt, rt, raw)
+        # more X*X.inv() / X.inv()*X: exp(X) @ exp(-X) is the identity up to round-off, sometimes just ABOVE iseye's 10 eps
+        # with an exactly symmetric residue (about 1 in 2000) -- the case repaired by /repo 5f912b1 (trlog: st == 0 -> 0/0)
+        for i in range(ctx.n(1500, 15000)):
+            raw = [twist_sample(rng, dim)] * 3
+            for law, lt, rt in tlaws[4:6]:
                 twist_case(ctx, name, cls, expr, alg, law, lt, rt, raw)
 
 
@@ -822,13 +821,14 @@ def twist_case(ctx, name, cls, expr, alg, law, lt, rt, raw):
 
 _AX = [1 / math.sqrt(14), 2 / math.sqrt(14), 3 / math.sqrt(14)]
 # deterministic operands: regression cases of the defects repaired by /repo 84bd1d7 (trlog near pi / tiny angles) and c4462a7
-# (trlog2 via logm), now required to hold under the per-law generic keys; the 4th Twist3 entry is the remaining finding
+# (trlog2 via logm), now required to hold under the per-law generic keys; the 4th Twist3 entry (symmetric round-off just above iseye,
+# st == 0 in trlog) was repaired by 5f912b1
 TWIST_SPECIALS = {
     'Twist3': [
         [[0.3, -0.2, 0.5] + [a * (math.pi - 1e-6) for a in _AX], [0.1, 0.2, 0.3, 0.2, -0.1, 0.4], [1, 0, 0, 0, 0, 0.5]],
         [[0.3, -0.2, 0.5] + [a * 1e-9 for a in _AX], [0.1, 0.2, 0.3, 0.2, -0.1, 0.4], [1, 0, 0, 0, 0, 0.5]],
         [[0.3, -0.2, 0.5] + [a * math.pi for a in _AX], [0.1, 0.2, 0.3, 0.2, -0.1, 0.4], [1, 0, 0, 0, 0, 0.5]],
-        # exp(X) @ exp(-X) = I + 2.4e-15 (symmetric): not `iseye`, acos gives exactly 0 -> ZeroDivisionError
+        # exp(X) @ exp(-X) = I + 2.4e-15 (symmetric): not `iseye`; before 5f912b1 trlog computed 0/0 here
         [[0.0005663899941463186, -0.0006996012426814142, -0.00046753360502624835, 2.8005337726876376, 0.6718287654153237,
           -1.2550924243366512], [0.1, 0.2, 0.3, 0.2, -0.1, 0.4], [1, 0, 0, 0, 0, 0.5]],
     ],
